@@ -163,6 +163,7 @@ def scalar_tag(t):
     raise ExtractError('no tag for %r' % (t,))
 
 
+KNOWN_RECORDS = set()   # qualified names (without template arguments) of records/enums seen in any AST unit
 TYPEDEFS = {}   # 'romea::core::X<...>::Alias' -> desugared type string (filled by AstUnit)
 
 
@@ -197,7 +198,7 @@ def parse_type(q):
     if name == 'std::vector' and targs:
         et, _, _ = parse_type(targs[0])
         return ('vector', et), is_ref, is_const
-    if name in ('std::basic_string', 'std::__cxx11::basic_string') or q0 in ('std::string', 'std::__cxx11::string'):
+    if name in ('std::basic_string', 'std::__cxx11::basic_string', 'basic_string') or q0 in ('std::string', 'std::__cxx11::string'):
         return ('string',), is_ref, is_const
     if name == 'std::mutex' or q0 == 'std::mutex':
         return ('mutex',), is_ref, is_const
@@ -218,12 +219,26 @@ def parse_type(q):
     if name == 'std::map' and targs:
         kt, _, _ = parse_type(targs[0]); vt, _, _ = parse_type(targs[1])
         return ('map', kt, vt), is_ref, is_const
+    if name in ('std::_List_iterator', 'std::_List_const_iterator', 'std::_Rb_tree_iterator', 'std::_Rb_tree_const_iterator', '__gnu_cxx::__normal_iterator') and targs:
+        et, _, _ = parse_type(targs[0].rstrip('*').strip())
+        return ('iter', et), is_ref, is_const
+    if q0.endswith('::iterator') or q0.endswith('::const_iterator'):
+        inner, _, _ = parse_type(q0.rsplit('::', 1)[0])
+        if inner[0] in ('list', 'vector'):
+            return ('iter', inner[1]), is_ref, is_const
+        if inner[0] == 'map':
+            return ('iter', ('pair', inner[1], inner[2])), is_ref, is_const
+    if name == 'std::pair' and targs:
+        kt, _, _ = parse_type(targs[0]); vt, _, _ = parse_type(targs[1])
+        return ('pair', kt, vt), is_ref, is_const
     if name == 'std::chrono::duration':
         return ('duration',), is_ref, is_const
     if name == 'std::chrono::time_point':
         return ('duration',), is_ref, is_const
     if name.startswith('romea::core::') or name.startswith('romea::'):
         return ('struct', mangle(q0)), is_ref, is_const
+    if re.match(r'^[A-Za-z_]\w*$', name) and ('romea::core::' + name) in KNOWN_RECORDS:
+        return ('struct', mangle('romea::core::' + q0)), is_ref, is_const
     return ('opaque', q0), is_ref, is_const
 
 
@@ -264,6 +279,10 @@ def ctype(t):
         return 'struct stdlist_' + type_tag(t[1])
     if k == 'map':
         return 'struct stdmap_' + type_tag(t[1]) + '_' + type_tag(t[2])
+    if k == 'pair':
+        return 'struct stdpair_' + type_tag(t[1]) + '_' + type_tag(t[2])
+    if k == 'iter':
+        return 'size_t'
     raise ExtractError('no C type for %r' % (t,))
 
 
@@ -280,11 +299,13 @@ def type_tag(t):
         return 'i32'
     if t[0] == 'duration':
         return 'i64'
+    if t[0] == 'pair':
+        return 'pair_%s_%s' % (type_tag(t[1]), type_tag(t[2]))
     raise ExtractError('no tag for %r' % (t,))
 
 
 def is_scalar(t):
-    return t[0] in ('int', 'bool', 'float', 'enum', 'duration')
+    return t[0] in ('int', 'bool', 'float', 'enum', 'duration', 'iter')
 
 
 # ----------------------------------------------------------------------------------------
@@ -310,6 +331,10 @@ class Program:
         self.rules[name] = self.rules.get(name, 0) + 1
 
     def intern_string(self, s):
+        if s.startswith('"') and s.endswith('"'):
+            s = s[1:-1]
+        if s == '':
+            return 0          # the empty string and a default-constructed std::string are the same handle
         if s not in self.string_literals:
             self.string_literals[s] = len(self.string_literals) + 1
         return self.string_literals[s]
@@ -319,8 +344,8 @@ class Program:
             m = mangle(t[1])
             if m in self.enums:
                 return ('enum', m)
-        if t[0] == 'vector':
-            return ('vector', self.fix_type(t[1]))
+        if t[0] in ('vector', 'list', 'optional', 'queue', 'iter'):
+            return (t[0], self.fix_type(t[1]))
         if t[0] == 'ptr':
             return ('ptr', self.fix_type(t[1]))
         return t
@@ -377,7 +402,22 @@ class Program:
     def resolve_call(self, tr, decl_id, name, obj, node):
         ent = self.by_def_id.get(decl_id)
         if ent is None:
-            return None
+            # definition lives in another translation unit: resolve by (class, name, arity)
+            parent = ''
+            if obj is not None:
+                ot, _, _ = parse_type(node_type(tr.strip(obj)).rstrip('*').strip())
+                for u in self.units:
+                    for rq in u.records:
+                        if ot[0] == 'struct' and mangle(rq) == ot[1]:
+                            parent = rq
+            nargs = len([c for c in node.get('inner', [])[1:] if isinstance(c, dict)])
+            if node.get('kind') == 'CXXOperatorCallExpr' and obj is not None:
+                nargs -= 1
+            try:
+                ent = self.find(parent, name, nparams=nargs)
+                self.rule('callee defined in another translation unit: resolved by qualified name and arity')
+            except ExtractError:
+                return None
         u, parent, n = ent
         if n['id'] not in self.cname_of_id:
             base = fn_basename(parent, n)
@@ -456,8 +496,10 @@ class Program:
             if q is None:
                 raise ExtractError('no record for struct ' + t[1])
             self.need_record(q)
-        elif t[0] in ('vector', 'ptr', 'optional', 'queue', 'list', 'atomic'):
+        elif t[0] in ('vector', 'ptr', 'optional', 'queue', 'list', 'atomic', 'iter'):
             self.need_type(t[1])
+        elif t[0] in ('map', 'pair'):
+            self.need_type(t[1]); self.need_type(t[2])
 
 
 OPNAMES = {'()': 'op_call', '[]': 'op_index', '*': 'op_mul', '+': 'op_add', '-': 'op_sub', '/': 'op_div',
@@ -481,7 +523,7 @@ def fn_signature(prog, n):
         if isinstance(c, dict) and c.get('kind') == 'ParmVarDecl':
             t, is_ref, is_const = parse_type(node_type(c))
             t = prog.fix_type(t)
-            if is_ref and is_scalar(t) and is_const:
+            if is_ref and (is_scalar(t) or t[0] == 'string') and is_const:
                 kinds.append('value')
             elif is_ref:
                 kinds.append('constref' if is_const else 'ref')
@@ -650,6 +692,7 @@ class AstUnit:
                     # ast-dump-filter prints matched decls at top level without their namespaces
                     q = 'romea::core::' + q if not q.startswith('romea') else q
                 self.rec_of_id[n['id']] = q
+                KNOWN_RECORDS.add(template_parts(q)[0])
                 for c in n.get('inner', []):
                     if isinstance(c, dict) and c.get('kind') in ('TypeAliasDecl', 'TypedefDecl'):
                         tt = c.get('type', {})
@@ -664,6 +707,7 @@ class AstUnit:
                 if not q.startswith('romea'):
                     q = 'romea::core::' + q
                 self.rec_of_id[n['id']] = q
+                KNOWN_RECORDS.add(q)
                 consts = {}
                 val = -1
                 for c in n.get('inner', []):
@@ -765,6 +809,7 @@ class FnTranslator:
     def __init__(self, prog, unit, node, parent_qual, cname, virtual_static=True):
         self.prog, self.unit, self.node, self.parent = prog, unit, node, parent_qual
         self.cname = cname
+        self.iters = {}       # decl id of an iterator variable -> container lvalue
         self.alias = {}       # decl id -> lvalue IR (reference locals)
         self.vars = {}        # decl id -> (cname, irtype, is_ptr)
         self.pre = []         # hoisted statements
@@ -815,7 +860,7 @@ class FnTranslator:
                 t, is_ref, is_const = parse_type(node_type(c))
                 t = self.fix_type(t)
                 name = c.get('name', '__unnamed%d' % len(params))
-                if is_ref and is_scalar(t) and is_const:
+                if is_ref and (is_scalar(t) or t[0] == 'string') and is_const:
                     self.rule('param: const scalar reference passed by value')
                     self.vars[c['id']] = (name, t, False)
                     params.append((name, t, 'value'))
@@ -910,12 +955,18 @@ class FnTranslator:
                     cargs.append(self.expr(a) if pk == 'value' and (is_scalar(self.T(a)) or self.T(a)[0] == 'string') else self.arg(a))
                 self.rule('constructor call resolved by class and arity')
                 return [('expr', ('call', ctor, cargs, ('void',)))]
-            if t[0] == 'vector':
+            if t[0] in ('vector', 'list', 'map'):
                 if not args:
-                    self.rule('std::vector: default construction = empty')
+                    self.rule('std::vector/list/map: default construction = empty')
                     return [('assign', ('field', lv, 'size', ('int', 64, False)), ('const', ('int', 64, False), 0))]
             if t[0] == 'mutex':
                 return [('assign', ('field', lv, 'held', ('int', 32, True)), ('const', ('int', 32, True), 0))]
+            if t[0] == 'optional' and not args:
+                self.rule('std::optional: default construction = disengaged')
+                return [('assign', ('field', lv, 'has', ('bool',)), ('const', ('bool',), 0))]
+            if t[0] == 'optional' and len(args) == 1 and is_scalar(self.T(args[0])):
+                self.rule('std::optional: construction from a value = engaged')
+                return [('assign', ('field', lv, 'v', t[1]), self.expr(args[0])), ('assign', ('field', lv, 'has', ('bool',)), ('const', ('bool',), 1))]
             if t[0] in ('string',):
                 if not args:
                     return [('assign', lv, ('const', t, 0))]
@@ -981,11 +1032,13 @@ class FnTranslator:
         if k == 'WhileStmt':
             parts = self.inner(n)
             c = self.expr(parts[0])
-            if self.pre:
-                self.err(n, 'hoisted temporaries in loop condition')
+            cpre = self.flush()
             ordn = self.loopn
             self.loopn += 1
             b = self.stmt(parts[1])
+            if cpre:
+                self.rule('while with side effects in its condition -> while(1) { effects; if (!cond) break; body }')
+                return [('while', ('const', ('bool',), 1), cpre + [('if', ('un', '!', c, ('bool',)), [('break',)], [])] + b, ordn)]
             return [('while', c, b, ordn)]
         if k == 'CXXForRangeStmt':
             return self.range_for(n)
@@ -1042,6 +1095,11 @@ class FnTranslator:
             self.vars[d['id']] = (name, t, True)
             return [('decl', name, ('ptr', t), ('addr', lv, ('ptr', t)))]
         self.vars[d['id']] = (name, t, False)
+        if t[0] == 'iter':
+            c, i = self.iter_of(init)
+            self.iters[d['id']] = c
+            self.rule('iterator variable -> index variable bound to its container')
+            return self.flush() + [('decl', name, ('int', 64, False), i)]
         if init is None:
             return [('decl', name, t, None)]
         if is_scalar(t):
@@ -1056,6 +1114,8 @@ class FnTranslator:
             return True
         if k in ('field', 'arrow', 'elem'):
             return self.stable_lv(lv[1])
+        if k == 'vindex':
+            return self.stable_lv(lv[1]) and lv[2][0] == 'const'
         if k == 'deref':
             return lv[1][0] == 'var'
         if k == 'addr':
@@ -1103,6 +1163,15 @@ class FnTranslator:
                 if lt[0] in ('string',) or is_scalar(lt):
                     rv = self.expr(args[1])
                     return self.flush() + [('assign', self.lvalue(self.strip(args[0])), rv)]
+                r0 = self.strip(args[1])
+                while r0['kind'] in ('ImplicitCastExpr', 'CXXFunctionalCastExpr', 'CXXConstructExpr', 'CXXTemporaryObjectExpr') and len(self.inner(r0)) == 1 and self.T(r0)[0] == 'optional':
+                    r0 = self.strip(self.inner(r0)[0])
+                if lt[0] == 'optional' and is_scalar(self.T(r0)):
+                    args = [args[0], r0]
+                    lv = self.lvalue(self.strip(args[0]))
+                    rv = self.expr(args[1])
+                    self.rule('std::optional: assignment from a value = engaged')
+                    return self.flush() + [('assign', ('field', lv, 'v', lt[1]), rv), ('assign', ('field', lv, 'has', ('bool',)), ('const', ('bool',), 1))]
                 if lt[0] in ('struct', 'vector', 'optional'):
                     rv = self.struct_value(args[1])
                     return self.flush() + [('assign', self.lvalue(self.strip(args[0])), rv)]
@@ -1262,6 +1331,55 @@ class FnTranslator:
                 return ('addr', ('var', nm, t), ('ptr', t))
         self.err(a, 'cannot pass argument of type %r' % (t,))
 
+    # -- iterators (std::list / std::map / std::vector) -> (container lvalue, index expression) ---------
+    def iter_of(self, n):
+        n = self.strip(n)
+        k = n['kind']
+        u64 = ('int', 64, False)
+        if k in ('ImplicitCastExpr', 'CXXConstructExpr', 'CXXFunctionalCastExpr') and self.inner(n):
+            return self.iter_of(self.inner(n)[0])
+        if k == 'DeclRefExpr':
+            rid = n['referencedDecl']['id']
+            if rid in self.iters:
+                nm, t, _ = self.vars[rid]
+                return self.iters[rid], ('var', nm, u64)
+            self.err(n, 'iterator variable without a known container')
+        cont = None
+        name = None
+        if k == 'CXXMemberCallExpr':
+            me = self.callee_decl(n)
+            name = me.get('name')
+            cont = self.inner(me)[0]
+        elif k == 'CallExpr':
+            callee = self.callee_decl(n)
+            name = callee.get('referencedDecl', {}).get('name')
+            cont = self.inner(n)[1]
+        elif k == 'CXXOperatorCallExpr' and self.opname(n) == '++':
+            args = self.inner(n)[1:]
+            c, i = self.iter_of(args[0])
+            if i[0] != 'var':
+                self.err(n, 'increment of a temporary iterator')
+            if len(args) > 1:
+                self.err(n, 'postfix iterator increment in an expression')
+            self.pre.append(('assign', i, ('bin', '+', i, ('const', u64, 1), u64)))
+            self.rule('iterator ++ -> index + 1')
+            return c, i
+        if name in ('begin', 'cbegin'):
+            self.rule('container begin() -> index 0')
+            return self.lvalue(cont), ('const', u64, 0)
+        if name in ('end', 'cend'):
+            self.rule('container end() -> index size')
+            c = self.lvalue(cont)
+            return c, ('field', c, 'size', u64)
+        self.err(n, 'iterator expression')
+
+    def iter_elem(self, n):
+        c, i = self.iter_of(n)
+        ct = c[-1]
+        et = ('pair', ct[1], ct[2]) if ct[0] == 'map' else ct[1]
+        self.rule('iterator dereference -> element data[index] with index<size assertion')
+        return ('vindex', c, i, et)
+
     # -- lvalues ------------------------------------------------------------------------
     def lvalue(self, n):
         n = self.strip(n)
@@ -1280,6 +1398,10 @@ class FnTranslator:
             base = self.inner(n)[0]
             ft = self.T(n)
             name = n['name']
+            b0 = self.strip(base)
+            if n.get('isArrow') and b0['kind'] == 'CXXOperatorCallExpr' and self.opname(b0) == '->':
+                el = self.iter_elem(self.inner(b0)[1])
+                return ('field', el, name, ft)
             if n.get('isArrow'):
                 p = self.ptr_expr(base)
                 if p[0] == 'addr':
@@ -1325,6 +1447,14 @@ class FnTranslator:
             if op == '*' and len(args) == 1 and bt[0] == 'optional':
                 v = self.lvalue(args[0])
                 return ('field', v, 'v', bt[1])
+            if op == '*' and len(args) == 1 and bt[0] == 'iter':
+                return self.iter_elem(args[0])
+            if op == '[]' and bt[0] == 'map':
+                m = self.lvalue(args[0])
+                key = self.expr(args[1])
+                self.rule('std::map operator[] -> model function stdmap_*_at (insertion into an empty map / existing key only)')
+                fn = 'stdmap_%s_%s_at' % (type_tag(bt[1]), type_tag(bt[2]))
+                return ('deref', ('call', fn, [('addr', m, ('ptr', bt)), key], ('ptr', bt[2])), bt[2])
         if k == 'UnaryOperator' and n['opcode'] == '*':
             p = self.ptr_expr(self.inner(n)[0])
             return ('deref', p, p[-1][1])
@@ -1334,7 +1464,7 @@ class FnTranslator:
             nm = me.get('name')
             obj = self.inner(me)[0]
             ot = self.T(obj)
-            if ot[0] == 'vector' and nm in ('front', 'back'):
+            if ot[0] in ('vector', 'list') and nm in ('front', 'back'):
                 v = self.lvalue(obj)
                 idx = ('const', ('int', 64, False), 0) if nm == 'front' else ('bin', '-', ('field', v, 'size', ('int', 64, False)), ('const', ('int', 64, False), 1), ('int', 64, False))
                 return ('vindex', v, idx, ot[1])
@@ -1453,7 +1583,7 @@ class FnTranslator:
                 if ft == tt:
                     return a
                 return ('cast', a, ft, tt)
-            if ck in ('ConstructorConversion', 'UserDefinedConversion'):
+            if ck in ('ConstructorConversion', 'UserDefinedConversion', 'ArrayToPointerDecay'):
                 return self.expr(sub)
             if ck == 'ToVoid':
                 return None
@@ -1537,6 +1667,34 @@ class FnTranslator:
             return ('var', 'self', ('ptr', self.self_type))
         self.err(n, 'unsupported expression')
 
+    def aggregate_value(self, n, t):
+        """a struct/Eigen value usable as an rvalue: an lvalue, or a temporary built by its constructor"""
+        n0 = self.strip(n)
+        while n0['kind'] in ('ImplicitCastExpr', 'CXXFunctionalCastExpr') and n0.get('castKind') in ('NoOp', 'ConstructorConversion'):
+            n0 = self.strip(self.inner(n0)[0])
+        if n0['kind'] in ('CXXConstructExpr', 'CXXTemporaryObjectExpr'):
+            args = self.inner(n0)
+            if len(args) == 1 and self.T(args[0]) == t and n0.get('ctorType', {}).get('qualType', '').count(t[1] if t[0] == 'struct' else '~') >= 1 and self.strip(args[0])['kind'] not in ('CXXConstructExpr', 'CXXTemporaryObjectExpr'):
+                try:
+                    return self.lvalue(args[0])      # copy construction from an lvalue
+                except ExtractError:
+                    pass
+            if len(args) == 1 and self.T(args[0]) == t:
+                return self.aggregate_value(args[0], t)
+            nm = self.tmp(t)
+            self.pre.append(('decl', nm, t, None))
+            self.pre += self.construct_into(('var', nm, t), t, n0)
+            return ('var', nm, t)
+        if t[0] == 'eig':
+            ev = self.eig(n0)
+            if ev.lv is not None:
+                return ev.lv
+            nm = self.tmp(t)
+            self.pre.append(('decl', nm, t, None))
+            self.pre += self.eig_store(('var', nm, t), t, ev)
+            return ('var', nm, t)
+        return self.lvalue(n0)
+
     def struct_value(self, n):
         n0 = self.strip(n)
         try:
@@ -1560,7 +1718,14 @@ class FnTranslator:
                     return ev.get(0, idx[0])
                 return ev.get(idx[0] // ev.cols, idx[0] % ev.cols)
             return ev.get(idx[0], idx[1])
-        if op == '[]' and a0t[0] == 'vector':
+        if op == '[]' and a0t[0] in ('vector', 'map'):
+            return self.lvalue(n)
+        if op in ('==', '!=') and a0t[0] == 'iter':
+            c1, i1 = self.iter_of(args[0])
+            c2, i2 = self.iter_of(args[1])
+            self.rule('iterator comparison -> index comparison')
+            return ('bin', op, i1, i2, ('bool',))
+        if op == '*' and len(args) == 1 and a0t[0] == 'iter':
             return self.lvalue(n)
         if op == '*' and len(args) == 1 and a0t[0] == 'optional':
             return self.lvalue(n)
@@ -1599,7 +1764,25 @@ class FnTranslator:
         ot = self.T(obj)
         if self.is_eigen_node(obj) or ot[0] == 'eig':
             return self.eig_scalar_method(n, name, obj, args, t)
-        if ot[0] == 'vector' or (ot[0] == 'ptr' and ot[1][0] == 'vector'):
+        if ot[0] == 'map':
+            m = self.lvalue(obj)
+            if name == 'insert' and len(args) == 2:
+                c1, i1 = self.iter_of(args[0]); c2, i2 = self.iter_of(args[1])
+                self.rule('std::map insert(first,last) -> model function (call recorded, semantics assumed)')
+                fn = 'stdmap_%s_%s_insert_range' % (type_tag(ot[1]), type_tag(ot[2]))
+                self.pre.append(('expr', ('call', fn, [('addr', m, ('ptr', ot)), ('addr', c1, ('ptr', ot)), i1, i2], ('void',))))
+                return None
+            if name == 'size':
+                return ('field', m, 'size', ('int', 64, False))
+            self.err(n, 'std::map::%s' % name)
+        if ot[0] == 'list' and name == 'insert' and len(args) == 3:
+            v = self.lvalue(obj)
+            c0, i0 = self.iter_of(args[0]); c1, i1 = self.iter_of(args[1]); c2, i2 = self.iter_of(args[2])
+            self.rule('std::list insert(pos,first,last) -> model function stdlist_*_insert_range')
+            fn = 'stdlist_%s_insert_range' % type_tag(ot[1])
+            self.pre.append(('expr', ('call', fn, [('addr', v, ('ptr', ot)), i0, ('addr', c1, ('ptr', ot)), i1, i2], ('void',))))
+            return None
+        if ot[0] in ('vector', 'list') or (ot[0] == 'ptr' and ot[1][0] == 'vector'):
             v = self.lvalue(obj)
             u64 = ('int', 64, False)
             if name == 'size':
@@ -1609,7 +1792,10 @@ class FnTranslator:
                 return ('bin', '==', ('field', v, 'size', u64), ('const', u64, 0), ('bool',))
             if name == 'push_back':
                 self.rule('std::vector push_back -> store at data[size], size+1 (capacity assumed, see models)')
-                val = self.expr(args[0])
+                if is_scalar(ot[1]) or ot[1][0] == 'string':
+                    val = self.expr(args[0])
+                else:
+                    val = self.aggregate_value(args[0], ot[1])
                 self.pre.append(('vpush', v, val, ot[1]))
                 return None
             if name == 'clear':
@@ -1755,6 +1941,9 @@ class FnTranslator:
     def repo_call(self, n, callee, args, t, obj=None):
         rd = callee.get('referencedDecl') or {}
         name = callee.get('name') or rd.get('name')
+        if name == 'toStringInfoValue':
+            self.rule('toStringInfoValue (ostringstream << value) -> uninterpreted str_of_<type>')
+            return ('call', 'str_of_' + type_tag(self.T(args[0])), [self.expr(args[0])], ('string',))
         mid = callee.get('referencedMemberDecl') or rd.get('id')
         target = self.prog.resolve_call(self, mid, name, obj, n)
         if target is None:
